@@ -12,6 +12,7 @@
 
 #include <boost/mqtt5/detail/control_packet.hpp>
 #include <boost/mqtt5/detail/internal_types.hpp>
+#include <boost/mqtt5/detail/verif.hpp>
 
 #include <boost/asio/any_completion_handler.hpp>
 #include <boost/asio/any_io_executor.hpp>
@@ -101,6 +102,8 @@ private:
     using fast_replies = std::vector<fast_reply>;
     fast_replies _fast_replies;
 
+    BOOST_MQTT5_VERIF_FRIEND
+
 public:
     template <typename Executor>
     explicit replies(Executor ex) : _ex(std::move(ex)) {}
@@ -122,6 +125,10 @@ public:
         }
 
         auto freply = find_fast_reply(code, packet_id);
+        BOOST_MQTT5_VERIF_EVENT(
+            "wait", long(code), long(packet_id),
+            long(freply != _fast_replies.end())
+        );
 
         if (freply == _fast_replies.end()) {
             auto initiation = [](
@@ -168,6 +175,10 @@ public:
         byte_citer first, byte_citer last
     ) {
         auto handler_ptr = find_handler(code, packet_id);
+        BOOST_MQTT5_VERIF_EVENT(
+            "dispatch", long(code), long(packet_id),
+            long(handler_ptr != _handlers.end())
+        );
 
         if (handler_ptr == _handlers.end()) {
             _fast_replies.push_back({
@@ -184,12 +195,14 @@ public:
 
     void resend_unanswered() {
         auto ua = std::move(_handlers);
+        BOOST_MQTT5_VERIF_EVENT("resend_unanswered", long(ua.size()));
         for (auto& h : ua)
             h.complete(asio::error::try_again);
     }
 
     void cancel_unanswered() {
         auto ua = std::move(_handlers);
+        BOOST_MQTT5_VERIF_EVENT("cancel_unanswered", long(ua.size()));
         for (auto& h : ua)
             h.complete_post(_ex, asio::error::operation_aborted);
     }
@@ -205,6 +218,7 @@ public:
     }
 
     void clear_fast_replies() {
+        BOOST_MQTT5_VERIF_EVENT("clear_fast", long(_fast_replies.size()));
         _fast_replies.clear();
     }
 
